@@ -24,15 +24,25 @@ impl Parser for Go {
         let mut actual = without_initiators(source);
         let mut actual_source = actual.get_content(source);
 
-        if matches!(actual_source, ['g', 'o', ':', ..]) {
-            // Skip the directive line. The newline is looked up in the same slice the offset is
-            // applied to (the comment without its initiators), not in the raw comment.
+        // Skip every leading directive line (`//go:build …` is often followed by
+        // `//go:generate …`). The newline is looked up in the same slice the offset is applied
+        // to (the comment without its initiators), not in the raw comment.
+        while matches!(actual_source, ['g', 'o', ':', ..]) {
             let Some(terminator) = actual_source.iter().position(|c| *c == '\n') else {
                 return Vec::new();
             };
 
-            actual.start += terminator;
-            actual_source = &actual_source[terminator..];
+            let rest = &actual_source[terminator..];
+            let next_line = without_initiators(rest).start;
+
+            if matches!(&rest[next_line..], ['g', 'o', ':', ..]) {
+                actual.start += terminator + next_line;
+                actual_source = &rest[next_line..];
+            } else {
+                actual.start += terminator;
+                actual_source = rest;
+                break;
+            }
         }
 
         // The remainder may span several `//` lines: strip the initiators of every line (a
